@@ -331,6 +331,17 @@ def drive(rec, seed=0, tier="quick"):
                 for _ in thm:
                     break
         notes[tag] = dict(num_patom=len(ph.primitive), num_satom=len(ph.supercell))
+    # shortest vectors of near-tie structures (noise around the tolerance, two tolerances), dense and sparse
+    from phonopy.structure.cells import ShortestPairs
+
+    for st in neartie_structures(seed, tier):
+        if tier == "quick" and st["crystal"] != "tetAB221" and st["noise"] not in (0, 3, 5, 6):
+            continue
+        for dense in (True, False):
+            rec.tag = "neartie|%s|%s" % (st["label"], "dense" if dense else "sparse")
+            with warnings.catch_warnings():
+                warnings.simplefilter("ignore")
+                ShortestPairs(st["bases"], st["spos"], st["ppos"], store_dense_svecs=dense, symprec=st["symprec"])
     # kernels that are only reached through the structure-level helpers
     rec.tag = "tetrahedron"
     with warnings.catch_warnings():
@@ -576,3 +587,113 @@ def index_map_facts(call):
         if ks[-1] - ks[0] + 1 != len(ks):
             noncontig = True
     return dict(indexmaps=True, noncontig=noncontig, p2sprefix=(p2s == list(range(len(p2s)))), gllimit=False)
+
+
+# --------------------------------------------------------------------------
+# near-tie structures for the shortest-vector kernels: equidistant images made
+# unequal by positional / lattice noise around the tolerance
+# --------------------------------------------------------------------------
+NOISE_FACTORS = [0.0, 0.01, 0.03, 0.1, 0.3, 1.0, 3.0]  # x symprec (Cartesian length); 0 = the exact crystal
+SYMPRECS = [1e-5, 1e-3]
+
+
+def neartie_structures(seed=0, tier="quick"):
+    """-> list of dict(label, crystal, noise (index into NOISE_FACTORS), symprec, bases, spos, ppos)"""
+    from phonopy.structure.cells import get_primitive, get_supercell
+
+    rng = np.random.default_rng(seed + 77)
+    a = 5.6903014761756712
+    nacl = _cell(["Na"] * 4 + ["Cl"] * 4,
+                 [[0, 0, 0], [0, .5, .5], [.5, 0, .5], [.5, .5, 0], [.5, .5, .5], [.5, 0, 0], [0, .5, 0], [0, 0, .5]],
+                 np.eye(3) * a)
+    tet = _cell(["Ti", "O"], [[0, 0, 0], [.5, .5, .27]], np.diag([3.8, 3.8, 4.4]))
+    specs = [("nacl222F", nacl, np.diag([2, 2, 2]), [[0, .25, .25], [.25, 0, .25], [.25, .25, 0]]),
+             ("tetAB221", tet, np.diag([2, 2, 1]), np.diag([.5, .5, 1.0]))]
+    if tier != "quick":
+        specs.append(("nacl111F", nacl, np.eye(3, dtype=int), "F"))
+    out = []
+    for cname, uc, smat, pmat in specs:
+        sc = get_supercell(uc, smat)
+        pc = get_primitive(sc, pmat)
+        p2s = pc.p2s_map
+        scale = float(np.cbrt(abs(np.linalg.det(sc.cell)) / len(sc)))
+        for si, symprec in enumerate(SYMPRECS):
+            for ni, fac in enumerate(NOISE_FACTORS):
+                amp = fac * symprec
+                spos = sc.scaled_positions + rng.uniform(-1, 1, size=(len(sc), 3)) * amp / np.linalg.norm(sc.cell, axis=1)
+                bases = sc.cell * (1.0 + rng.uniform(-1, 1, size=(3, 3)) * amp / (10 * scale) * (ni % 2))
+                out.append(dict(label="%s|n%d|s%d" % (cname, ni, si), crystal=cname, noise=ni, sp=si, symprec=symprec,
+                                bases=np.array(bases, dtype="double", order="C"),
+                                spos=np.array(spos, dtype="double", order="C"),
+                                ppos=np.array(spos[p2s], dtype="double", order="C")))
+    return out
+
+
+def gsv_arguments(st, longdtype):
+    """The arrays the Python layer (ShortestPairs._transform_cell_basis) hands to the gsv kernels."""
+    from phonopy.structure.cells import ShortestPairs
+
+    sp = object.__new__(ShortestPairs)
+    sp._supercell_bases = st["bases"]
+    sp._supercell_pos = st["spos"]
+    sp._primitive_pos = st["ppos"]
+    sp._symprec = st["symprec"]
+    lp, sf, pf, tmi, rb = sp._transform_cell_basis(longdtype)
+    return (np.array(sf, dtype="double", order="C"), np.array(pf, dtype="double", order="C"),
+            np.array(lp, dtype=longdtype, order="C"), np.array(rb.T, dtype="double", order="C"),
+            np.array(tmi.T, dtype=longdtype, order="C"))
+
+
+BIGPAD = 4096
+
+
+def _guard_big(arr):
+    kind = "f" if arr.dtype.kind == "f" else "i"
+    buf = np.empty(arr.size + 2 * BIGPAD, dtype=arr.dtype)
+    buf[:] = CANARY[kind] if kind == "f" else np.array(CANARY["i"]).astype(arr.dtype)
+    v = buf[BIGPAD:BIGPAD + arr.size].reshape(arr.shape)
+    v[...] = arr
+    return v, buf
+
+
+def _guard_ok(buf, n):
+    c = CANARY["f"] if buf.dtype.kind == "f" else np.array(CANARY["i"]).astype(buf.dtype)
+    return bool((buf[:BIGPAD] == c).all() and (buf[BIGPAD + n:] == c).all())
+
+
+def two_pass_dense(st, phonoc):
+    """The Python layer's protocol for the dense kernel, on guard-padded arrays:
+    counting pass (initialize=1) -> allocate sum(count) rows -> filling pass (initialize=0).
+    Logged: per pair the count and address of pass 1, per pair the number of rows the filling pass
+    writes (the kernel run on that single pair), total rows written by the filling pass into an
+    oversized sentinel buffer, allocated rows, guard zones of both passes."""
+    sf, pf, lp, rb, tm = gsv_arguments(st, "int64")
+    ns, npr = len(sf), len(pf)
+    sym = st["symprec"]
+    multi, mbuf = _guard_big(np.zeros((ns, npr, 2), dtype="int64"))
+    dummy, dbuf = _guard_big(np.zeros((1, 3), dtype="double"))
+    phonoc.gsv_set_smallest_vectors_dense(dummy, multi, sf, pf, lp, rb, tm, 1, sym)
+    g1 = _guard_ok(mbuf, multi.size) and _guard_ok(dbuf, 3) and bool((dummy == 0).all())
+    count1 = [int(x) for x in multi[:, :, 0].ravel()]
+    addr1 = [int(x) for x in multi[:, :, 1].ravel()]
+    ok_counts = all(0 <= c <= len(lp) for c in count1)
+    alloc = int(sum(count1)) if ok_counts else 0
+    # filling pass exactly as the Python layer allocates it
+    sv, sbuf = _guard_big(np.zeros((max(alloc, 0), 3), dtype="double"))
+    m2 = np.array(multi, copy=True)
+    phonoc.gsv_set_smallest_vectors_dense(sv, m2, sf, pf, lp, rb, tm, 0, sym)
+    g2 = _guard_ok(sbuf, sv.size) and bool(np.array_equal(m2, multi))
+    # rows the filling pass writes: oversized buffer pre-filled with a sentinel
+    big = np.full((len(lp) * ns * npr + 8, 3), np.nan)
+    phonoc.gsv_set_smallest_vectors_dense(big, np.array(multi, copy=True), sf, pf, lp, rb, tm, 0, sym)
+    filltotal = int((~np.isnan(big[:, 0])).sum())
+    fill2 = []
+    for i in range(ns):
+        for j in range(npr):
+            one = np.full((len(lp) + 2, 3), np.nan)
+            phonoc.gsv_set_smallest_vectors_dense(one, np.zeros((1, 1, 2), dtype="int64"),
+                                                  np.array(sf[i:i + 1], order="C"), np.array(pf[j:j + 1], order="C"),
+                                                  lp, rb, tm, 0, sym)
+            fill2.append(int((~np.isnan(one[:, 0])).sum()))
+    return dict(label=st["label"], crystal=st["crystal"], noise=st["noise"], sp=st["sp"], count1=count1, addr1=addr1,
+                fill2=fill2, filltotal=filltotal, alloc=alloc, guards1=bool(g1), guards2=bool(g2))
